@@ -3,6 +3,7 @@ import GeoVerif.Proofs.F64Round
 import GeoVerif.Proofs.Digits
 import GeoVerif.Proofs.GeohashBits
 import GeoVerif.Proofs.GeohashScale
+import GeoVerif.Proofs.GeorefLoop
 import GeoVerif.Props.C16
 /-!
 # C18 — property theorems (grid codes), integer level
@@ -796,6 +797,295 @@ theorem geohash_decode_encode46 (ulon ulat len : Nat) (hlen : len ≤ 18) (h1 : 
 
 example : (match Geohash.decodeInt (toBytes (Geohash.encodeInt (2^45 + 12345678901) (2^45 + 333) 7)) with
     | .ok d => decide (d = ⟨(2^45 + 12345678901) >>> 28, (2^45 + 333) >>> 29, 7⟩) | .error _ => false) = true := by decide
+
+/-! ### Georef: `decodeInt ∘ encodeInt` for every cell and every precision (tile, degree, and the digit loop) -/
+
+/-- one step of the digit loop of `Georef::Reverse` on known digits -/
+def georefStep (xd yd : Nat → Nat) (i : Nat) (st : Int × Int × Int) : Int × Int × Int :=
+  ((if i ≠ 0 then 10 else 6) * st.1 + (xd i : Int), (if i ≠ 0 then 10 else 6) * st.2.1 + (yd i : Int),
+   st.2.2 * (if i ≠ 0 then 10 else 6))
+
+theorem georef_decode_long (s : List Nat) (cp : Bool) (k0 k1 k2 k3 p : Nat) (hp2 : 2 ≤ p) (hp11 : p ≤ 11)
+    (hlen : s.length = 4 + 2 * p)
+    (h0 : lookup Georef.lontile (s.getD 0 0) = some k0) (h1 : lookup Georef.lattile (s.getD 1 0) = some k1)
+    (h2 : lookup Georef.degrees (s.getD 2 0) = some k2) (h3 : lookup Georef.degrees (s.getD 3 0) = some k3)
+    (hdig : ((s.drop 4).any fun c => !decide (48 ≤ c ∧ c ≤ 57)) = false)
+    (xd yd : Nat → Nat)
+    (hxd : ∀ i, i < p → lookup Georef.digits (s.getD (4 + i) 0) = some (xd i))
+    (hyd : ∀ i, i < p → lookup Georef.digits (s.getD (4 + i + p) 0) = some (yd i))
+    (h6 : xd 0 < 6 ∧ yd 0 < 6) :
+    Georef.decodeInt s cp =
+      .ok (let st := (List.range p).foldl (fun st i => georefStep xd yd i st)
+              (((k0:Int) + -180 / 15) * 15 + k2, ((k1:Int) + -90 / 15) * 15 + k3, 1 * 15)
+           ⟨if cp then 2 * st.2.1 + 1 else st.2.1, if cp then 2 * st.1 + 1 else st.1,
+            if cp then st.2.2 * 2 else st.2.2, p⟩) := by
+  have hlenI : (s.length : Int) = 4 + 2 * p := by exact_mod_cast hlen
+  have hprec : (2 + (4 + 2 * (p:Int)) - 4) / 2 - 1 = p := by omega
+  have c1 : ¬ (4 + 2 * (p:Int) < 4 - 2) := by omega
+  have c2 : 4 + 2 * (p:Int) > 2 := by omega
+  have c3 : ¬ (4 + 2 * (p:Int) < 4) := by omega
+  have c4 : 4 + 2 * (p:Int) > 4 := by omega
+  have c5 : ¬ ((4 + 2 * (p:Int)) % 2 ≠ 0) := by omega
+  have c6 : ¬ ((p:Int) = 1) := by omega
+  have c7 : ¬ ((p:Int) > 11) := by omega
+  have ht : Int.toNat 4 = 4 := rfl
+  unfold Georef.decodeInt
+  simp only [hlenI, georef_baselen, georef_tile, georef_lonorig, georef_latorig, georef_maxprec, georef_base, h0, h1, h2, h3, hprec,
+    c1, c2, c3, c4, c5, c6, c7, ht, hdig, if_true, if_false, Int.toNat_natCast, Bool.false_eq_true, pure_bind]
+  rw [GeorefLoop.forIn_yield _ _ _ (georefStep xd yd) (by
+    intro i hi st
+    have hi' : i < p := List.mem_range.mp hi
+    rw [hxd i hi', hyd i hi']
+    by_cases h : i = 0
+    · subst h
+      have a1 : ((xd 0 : Nat) : Int) < 6 := by exact_mod_cast h6.1
+      have a2 : ((yd 0 : Nat) : Int) < 6 := by exact_mod_cast h6.2
+      simp [georefStep, a1, a2, pure, Except.pure]
+    · simp [georefStep, h, pure, Except.pure])]
+  cases cp <;> rfl
+
+
+/-- minutes-and-decimals weight after `j` digits: `1, 6, 60, 600, …` -/
+def georefW (j : Nat) : Int := if j = 0 then 1 else 6 * 10 ^ (j - 1)
+
+/-- value of the digit loop after `j` steps on the big-endian digits of `x`, `y` (width `p`) -/
+theorem georef_fold (p x y : Nat) (hp : 1 ≤ p) (hx : x < 6 * 10 ^ (p - 1)) (hy : y < 6 * 10 ^ (p - 1))
+    (lon0 lat0 u0 : Int) (j : Nat) (hj : j ≤ p) :
+    (List.range j).foldl (fun st i => georefStep (fun i => x / 10 ^ (p - 1 - i) % 10) (fun i => y / 10 ^ (p - 1 - i) % 10) i st)
+        (lon0, lat0, u0)
+      = (lon0 * georefW j + ((x / 10 ^ (p - j) : Nat) : Int), lat0 * georefW j + ((y / 10 ^ (p - j) : Nat) : Int),
+         u0 * georefW j) := by
+  have h10 : (10:Nat) ^ p = 10 * 10 ^ (p - 1) := by
+    conv_lhs => rw [show p = (p - 1) + 1 by omega]
+    rw [Nat.pow_succ, Nat.mul_comm]
+  have e1 : x / 10 ^ p = 0 := by apply Nat.div_eq_of_lt; omega
+  have e2 : y / 10 ^ p = 0 := by apply Nat.div_eq_of_lt; omega
+  have w0 : georefW 0 = 1 := rfl
+  have w1 : georefW 1 = 6 := by decide
+  induction j with
+  | zero =>
+    rw [List.range_zero, List.foldl_nil, Nat.sub_zero, e1, e2, w0]
+    refine Prod.ext ?_ (Prod.ext ?_ ?_) <;> simp only [] <;> omega
+  | succ j ih =>
+    rw [List.range_succ, List.foldl_append, ih (by omega)]
+    simp only [List.foldl_cons, List.foldl_nil, georefStep]
+    by_cases h0 : j = 0
+    · subst h0
+      have f1 : x / 10 ^ (p - 1) < 6 := by rw [Nat.div_lt_iff_lt_mul (by positivity)]; exact hx
+      have f2 : y / 10 ^ (p - 1) < 6 := by rw [Nat.div_lt_iff_lt_mul (by positivity)]; exact hy
+      rw [Nat.sub_zero, Nat.sub_zero, Nat.zero_add, e1, e2, w0, w1]
+      rw [Nat.mod_eq_of_lt (by omega : x / 10 ^ (p - 1) < 10), Nat.mod_eq_of_lt (by omega : y / 10 ^ (p - 1) < 10)]
+      generalize x / 10 ^ (p - 1) = a
+      generalize y / 10 ^ (p - 1) = b
+      simp only [ne_eq, not_true_eq_false, if_false]
+      refine Prod.ext ?_ (Prod.ext ?_ ?_) <;> simp only [] <;> omega
+    · have hj1 : p - 1 - j + 1 = p - j := by omega
+      have hA : x / 10 ^ (p - j) = x / 10 ^ (p - 1 - j) / 10 := by
+        rw [← hj1, Nat.pow_succ, Nat.div_div_eq_div_mul]
+      have hB : y / 10 ^ (p - j) = y / 10 ^ (p - 1 - j) / 10 := by
+        rw [← hj1, Nat.pow_succ, Nat.div_div_eq_div_mul]
+      have hW : georefW (j + 1) = 10 * georefW j := by
+        unfold georefW
+        rw [if_neg (by omega), if_neg h0, show j + 1 - 1 = (j - 1) + 1 by omega, Int.pow_succ]
+        omega
+      rw [hA, hB, hW, show p - (j + 1) = p - 1 - j by omega]
+      simp only [ne_eq, h0, not_false_eq_true, if_true]
+      generalize x / 10 ^ (p - 1 - j) = A
+      generalize y / 10 ^ (p - 1 - j) = B
+      rw [Int.mul_left_comm lon0 10, Int.mul_left_comm lat0 10, Int.mul_left_comm u0 10]
+      generalize lon0 * georefW j = L
+      generalize lat0 * georefW j = M
+      generalize u0 * georefW j = U
+      refine Prod.ext ?_ (Prod.ext ?_ ?_) <;> simp only [] <;> omega
+
+
+theorem georef_digits_lookup : ∀ k < 10, lookup Georef.digits (chr Georef.digits k).toNat = some k := by decide
+theorem georef_digit_bytes : ∀ k < 10, 48 ≤ (chr Georef.digits k).toNat ∧ (chr Georef.digits k).toNat ≤ 57 := by decide
+
+theorem georef_digits_any (w n : Nat) :
+    ∀ c ∈ toBytes (digitsW Georef.digits 10 w n), 48 ≤ c ∧ c ≤ 57 := by
+  intro c hc
+  simp only [toBytes, List.mem_map] at hc
+  obtain ⟨ch, hch, rfl⟩ := hc
+  obtain ⟨k, hk, rfl⟩ := Digits.digitsW_mem Georef.digits 10 (by norm_num) w n ch hch
+  exact georef_digit_bytes k hk
+
+theorem getD_four (a b c d : Nat) (rest : List Nat) (i : Nat) : (a :: b :: c :: d :: rest).getD (4 + i) 0 = rest.getD i 0 := by
+  rw [Nat.add_comm]; rfl
+
+/-- **`decode_encode_int`, Georef, minutes and finer** (`2 ≤ prec ≤ 11`, every cell, both `centerp`): the decoded
+numerators are `⌊X / 10^(11−prec)⌋ + lonorig·W`, `W = 6·10^(prec−1)` cells per degree, over `unit = 15·W` -/
+theorem georef_decode_encode_long (X Y : Int) (hX : 0 ≤ X ∧ X < 360 * Georef.m) (hY : 0 ≤ Y ∧ Y < 180 * Georef.m)
+    (p : Nat) (hp2 : 2 ≤ p) (hp11 : p ≤ 11) (cp : Bool) :
+    Georef.decodeInt (toBytes (Georef.encodeInt X Y p)) cp =
+      let W := georefW p
+      let lat1 := Y / 10 ^ (11 - p) + georef_latorig * W
+      let lon1 := X / 10 ^ (11 - p) + georef_lonorig * W
+      .ok ⟨if cp then 2 * lat1 + 1 else lat1, if cp then 2 * lon1 + 1 else lon1,
+           if cp then 15 * W * 2 else 15 * W, p⟩ := by
+  have hm : Georef.m = 60000000000 := rfl
+  rw [hm] at hX hY
+  -- the string
+  have hpn : ¬ ((p:Int) < 0) := by omega
+  have hp0 : ¬ ((p:Int) = 0) := by omega
+  unfold Georef.encodeInt
+  simp only [hpn, hp0, if_false, hm, georef_tile, georef_base, georef_maxprec, Int.toNat_natCast]
+  set ilon := X / 60000000000 with hilon
+  set ilat := Y / 60000000000 with hilat
+  have hd : ((11:Int) - p).toNat = 11 - p := by omega
+  rw [hd]
+  set xN := ((X - 60000000000 * ilon) / 10 ^ (11 - p)).toNat with hxN
+  set yN := ((Y - 60000000000 * ilat) / 10 ^ (11 - p)).toNat with hyN
+  -- bounds
+  have i1 : 0 ≤ ilon ∧ ilon < 360 := by omega
+  have i2 : 0 ≤ ilat ∧ ilat < 180 := by omega
+  have hpow : (10:Int) ^ (11 - p) * (6 * 10 ^ (p - 1)) = 60000000000 := by
+    have : (11 - p) + (p - 1) = 10 := by omega
+    rw [Int.mul_comm, Int.mul_assoc, ← Int.pow_add, Nat.add_comm, this]; norm_num
+  have hpowpos : (0:Int) < 10 ^ (11 - p) := by positivity
+  have hpow' : (6:Int) * 10 ^ (p - 1) * 10 ^ (11 - p) = 60000000000 := by rw [Int.mul_comm]; exact hpow
+  have r0 : 0 ≤ X - 60000000000 * ilon ∧ X - 60000000000 * ilon < 60000000000 := by omega
+  have r1 : 0 ≤ Y - 60000000000 * ilat ∧ Y - 60000000000 * ilat < 60000000000 := by omega
+  have hxq : (X - 60000000000 * ilon) / 10 ^ (11 - p) < 6 * 10 ^ (p - 1) :=
+    Int.ediv_lt_of_lt_mul hpowpos (by rw [hpow']; exact r0.2)
+  have hyq : (Y - 60000000000 * ilat) / 10 ^ (11 - p) < 6 * 10 ^ (p - 1) :=
+    Int.ediv_lt_of_lt_mul hpowpos (by rw [hpow']; exact r1.2)
+  have hxq0 : 0 ≤ (X - 60000000000 * ilon) / 10 ^ (11 - p) := Int.ediv_nonneg r0.1 hpowpos.le
+  have hyq0 : 0 ≤ (Y - 60000000000 * ilat) / 10 ^ (11 - p) := Int.ediv_nonneg r1.1 hpowpos.le
+  have hxlt : xN < 6 * 10 ^ (p - 1) := by
+    have : ((xN : Nat) : Int) < ((6 * 10 ^ (p - 1) : Nat) : Int) := by
+      rw [hxN, Int.toNat_of_nonneg hxq0]; push_cast; exact hxq
+    exact_mod_cast this
+  have hylt : yN < 6 * 10 ^ (p - 1) := by
+    have : ((yN : Nat) : Int) < ((6 * 10 ^ (p - 1) : Nat) : Int) := by
+      rw [hyN, Int.toNat_of_nonneg hyq0]; push_cast; exact hyq
+    exact_mod_cast this
+  -- normal form of the byte string
+  have ht10 : Int.toNat 10 = 10 := rfl
+  simp only [toBytes, List.map_append, List.cons_append, List.nil_append, List.map_cons, ht10]
+  have hdx : (List.map Char.toNat (digitsW Georef.digits 10 p xN)) = toBytes (digitsW Georef.digits 10 p xN) := rfl
+  have hdy : (List.map Char.toNat (digitsW Georef.digits 10 p yN)) = toBytes (digitsW Georef.digits 10 p yN) := rfl
+  rw [hdx, hdy]
+  have lx : (toBytes (digitsW Georef.digits 10 p xN)).length = p := by simp [toBytes, Digits.digitsW_length]
+  have ly : (toBytes (digitsW Georef.digits 10 p yN)).length = p := by simp [toBytes, Digits.digitsW_length]
+  rw [georef_decode_long ((chr Georef.lontile (ilon / 15).toNat).toNat ::
+        (chr Georef.lattile (ilat / 15).toNat).toNat ::
+          (chr Georef.degrees (ilon % 15).toNat).toNat ::
+            (chr Georef.degrees (ilat % 15).toNat).toNat ::
+              (toBytes (digitsW Georef.digits 10 p xN) ++ toBytes (digitsW Georef.digits 10 p yN)))
+    cp (ilon / 15).toNat (ilat / 15).toNat (ilon % 15).toNat (ilat % 15).toNat p hp2 hp11
+    (by simp only [List.length_cons, List.length_append, lx, ly]; omega)
+    (georef_lontile_lookup _ (by omega)) (georef_lattile_lookup _ (by omega))
+    (georef_degrees_lookup _ (by omega)) (georef_degrees_lookup _ (by omega))
+    (by
+      simp only [List.drop_succ_cons, List.drop_zero]
+      rw [List.any_eq_false]
+      intro c hc
+      rcases List.mem_append.mp hc with h | h
+      · have := georef_digits_any p xN c h; simp [this]
+      · have := georef_digits_any p yN c h; simp [this])
+    (fun i => xN / 10 ^ (p - 1 - i) % 10) (fun i => yN / 10 ^ (p - 1 - i) % 10)
+    (by
+      intro i hi
+      rw [getD_four, List.getD_eq_getElem?_getD, List.getElem?_append_left (by rw [lx]; exact hi),
+        ← List.getD_eq_getElem?_getD, GeorefLoop.digitsW_getD _ _ _ _ _ hi]
+      exact georef_digits_lookup _ (Nat.mod_lt _ (by norm_num)))
+    (by
+      intro i hi
+      rw [Nat.add_assoc, getD_four, List.getD_eq_getElem?_getD, List.getElem?_append_right (by rw [lx]; omega), lx,
+        show i + p - p = i by omega, ← List.getD_eq_getElem?_getD, GeorefLoop.digitsW_getD _ _ _ _ _ hi]
+      exact georef_digits_lookup _ (Nat.mod_lt _ (by norm_num)))
+    (by
+      have f1 : xN / 10 ^ (p - 1) < 6 := by rw [Nat.div_lt_iff_lt_mul (by positivity)]; exact hxlt
+      have f2 : yN / 10 ^ (p - 1) < 6 := by rw [Nat.div_lt_iff_lt_mul (by positivity)]; exact hylt
+      simp only [Nat.sub_zero]
+      constructor
+      · rw [Nat.mod_eq_of_lt (by omega)]; exact f1
+      · rw [Nat.mod_eq_of_lt (by omega)]; exact f2)]
+  rw [georef_fold p xN yN (by omega) hxlt hylt _ _ _ p (Nat.le_refl _)]
+  have hW : georefW p = 6 * 10 ^ (p - 1) := by unfold georefW; rw [if_neg (by omega)]
+  have keyX : X / 10 ^ (11 - p) = (X - 60000000000 * ilon) / 10 ^ (11 - p) + ilon * (6 * 10 ^ (p - 1)) := by
+    have : X = (X - 60000000000 * ilon) + (ilon * (6 * 10 ^ (p - 1))) * 10 ^ (11 - p) := by
+      rw [Int.mul_assoc, hpow']; omega
+    conv_lhs => rw [this]
+    rw [Int.add_mul_ediv_right _ _ (ne_of_gt hpowpos)]
+  have keyY : Y / 10 ^ (11 - p) = (Y - 60000000000 * ilat) / 10 ^ (11 - p) + ilat * (6 * 10 ^ (p - 1)) := by
+    have : Y = (Y - 60000000000 * ilat) + (ilat * (6 * 10 ^ (p - 1))) * 10 ^ (11 - p) := by
+      rw [Int.mul_assoc, hpow']; omega
+    conv_lhs => rw [this]
+    rw [Int.add_mul_ediv_right _ _ (ne_of_gt hpowpos)]
+  have fx : ((((ilon / 15).toNat : Nat) : Int) + -180 / 15) * 15 + (((ilon % 15).toNat : Nat) : Int) = ilon - 180 := by omega
+  have fy : ((((ilat / 15).toNat : Nat) : Int) + -90 / 15) * 15 + (((ilat % 15).toNat : Nat) : Int) = ilat - 90 := by omega
+  have gx : ((xN / 10 ^ (p - p) : Nat) : Int) = (X - 60000000000 * ilon) / 10 ^ (11 - p) := by
+    rw [Nat.sub_self, Nat.pow_zero, Nat.div_one, hxN, Int.toNat_of_nonneg hxq0]
+  have gy : ((yN / 10 ^ (p - p) : Nat) : Int) = (Y - 60000000000 * ilat) / 10 ^ (11 - p) := by
+    rw [Nat.sub_self, Nat.pow_zero, Nat.div_one, hyN, Int.toNat_of_nonneg hyq0]
+  rw [fx, fy, gx, gy, keyX, keyY, hW, Int.sub_mul, Int.sub_mul]
+  simp only [georef_latorig, georef_lonorig]
+  generalize (X - 60000000000 * ilon) / 10 ^ (11 - p) = DX
+  generalize (Y - 60000000000 * ilat) / 10 ^ (11 - p) = DY
+  generalize ilon * (6 * 10 ^ (p - 1)) = LW
+  generalize ilat * (6 * 10 ^ (p - 1)) = MW
+  generalize (6:Int) * 10 ^ (p - 1) = W
+  congr 1
+  cases cp <;> simp only [Georef.Dec.mk.injEq, Bool.false_eq_true, if_false, if_true, and_true] <;>
+    refine ⟨?_, ?_, ?_⟩ <;> omega
+
+/-- **`decode_encode_int`, Georef, 15° tiles** (`prec < 0`): 2 letters, `unit = 1` (per 15°), precision `−1` -/
+theorem georef_decode_encode_tile (X Y : Int) (hX : 0 ≤ X ∧ X < 360 * Georef.m) (hY : 0 ≤ Y ∧ Y < 180 * Georef.m)
+    (prec : Int) (hp : prec < 0) (cp : Bool) :
+    Georef.decodeInt (toBytes (Georef.encodeInt X Y prec)) cp =
+      let lat1 := Y / (15 * Georef.m) + georef_latorig / 15
+      let lon1 := X / (15 * Georef.m) + georef_lonorig / 15
+      .ok ⟨if cp then 2 * lat1 + 1 else lat1, if cp then 2 * lon1 + 1 else lon1, if cp then 2 else 1, -1⟩ := by
+  have hm : Georef.m = 60000000000 := rfl
+  rw [hm] at hX hY
+  unfold Georef.encodeInt
+  simp only [hp, if_true, hm, georef_tile]
+  have i1 : 0 ≤ X / 60000000000 / 15 ∧ X / 60000000000 / 15 < 24 := by omega
+  have i2 : 0 ≤ Y / 60000000000 / 15 ∧ Y / 60000000000 / 15 < 12 := by omega
+  have l0 := georef_lontile_lookup (X / 60000000000 / 15).toNat (by omega)
+  have l1 := georef_lattile_lookup (Y / 60000000000 / 15).toNat (by omega)
+  unfold Georef.decodeInt
+  simp only [toBytes, List.map_cons, List.map_nil, List.length_cons, List.length_nil, georef_baselen, georef_tile,
+    georef_lonorig, georef_latorig]
+  cases cp <;> simp [l0, l1]
+  all_goals
+    show Except.ok _ = Except.ok _
+    congr 1
+    simp only [Georef.Dec.mk.injEq, and_true]
+    constructor <;> omega
+
+/-- **`decode_encode_int`, Georef, degrees** (`prec = 0`): 4 letters, `unit = 15` (per 15°), precision `0` -/
+theorem georef_decode_encode_degree (X Y : Int) (hX : 0 ≤ X ∧ X < 360 * Georef.m) (hY : 0 ≤ Y ∧ Y < 180 * Georef.m)
+    (cp : Bool) :
+    Georef.decodeInt (toBytes (Georef.encodeInt X Y 0)) cp =
+      let lat1 := Y / Georef.m + georef_latorig
+      let lon1 := X / Georef.m + georef_lonorig
+      .ok ⟨if cp then 2 * lat1 + 1 else lat1, if cp then 2 * lon1 + 1 else lon1, if cp then 30 else 15, 0⟩ := by
+  have hm : Georef.m = 60000000000 := rfl
+  rw [hm] at hX hY
+  unfold Georef.encodeInt
+  simp only [hm, georef_tile, Int.lt_irrefl, if_false, if_true]
+  have i1 : 0 ≤ X / 60000000000 / 15 ∧ X / 60000000000 / 15 < 24 := by omega
+  have i2 : 0 ≤ Y / 60000000000 / 15 ∧ Y / 60000000000 / 15 < 12 := by omega
+  have l0 := georef_lontile_lookup (X / 60000000000 / 15).toNat (by omega)
+  have l1 := georef_lattile_lookup (Y / 60000000000 / 15).toNat (by omega)
+  have l2 := georef_degrees_lookup (X / 60000000000 % 15).toNat (by omega)
+  have l3 := georef_degrees_lookup (Y / 60000000000 % 15).toNat (by omega)
+  unfold Georef.decodeInt
+  simp only [toBytes, List.map_cons, List.map_nil, List.cons_append, List.nil_append, List.length_cons,
+    List.length_nil, georef_baselen, georef_tile, georef_lonorig, georef_latorig]
+  cases cp <;> simp [l0, l1, l2, l3]
+  all_goals
+    show Except.ok _ = Except.ok _
+    congr 1
+    simp only [Georef.Dec.mk.injEq, and_true]
+    constructor <;> omega
+
+example : (match Georef.decodeInt (toBytes (Georef.encodeInt (183 * 60000000000 + 12345678901) (95 * 60000000000 + 7) 5)) false with
+    | .ok d => decide (d = ⟨(95 * 60000000000 + 7) / 10 ^ 6 - 90 * 60000, (183 * 60000000000 + 12345678901) / 10 ^ 6 - 180 * 60000,
+        15 * 60000, 5⟩) | .error _ => false) = true := by decide +kernel
 
 /-! ### end to end on the exact cell: `Reverse ∘ ForwardExact` contains the point -/
 
